@@ -424,7 +424,17 @@ func c17ProbeContext(c *Ctx) {
 		return
 	}
 	n := 0
-	for _, af := range splat.AnonFuncs {
+	// closures at any nesting depth
+	var closures []*ssa.Function
+	var collect func(f *ssa.Function)
+	collect = func(f *ssa.Function) {
+		for _, af := range f.AnonFuncs {
+			closures = append(closures, af)
+			collect(af)
+		}
+	}
+	collect(splat)
+	for _, af := range closures {
 		for _, b := range af.Blocks {
 			for _, ins := range b.Instrs {
 				call, ok := ins.(*ssa.Call)
@@ -435,15 +445,54 @@ func c17ProbeContext(c *Ctx) {
 				c.Fn(FuncName(af))
 				ctx := call.Call.Args[1]
 				isChild := false
-				if cc, ok := ctx.(*ssa.Call); ok && cc.Call.StaticCallee() == newChild {
-					isChild = true
+				// the context may be held in a local or a captured variable: every store into it
+				var isNewChild func(v ssa.Value, d int) bool
+				isNewChild = func(v ssa.Value, d int) bool {
+					if d > 4 {
+						return false
+					}
+					if cc, ok := v.(*ssa.Call); ok && cc.Call.StaticCallee() == newChild {
+						return true
+					}
+					if ld, ok := v.(*ssa.UnOp); ok && ld.Op == token.MUL {
+						var cell ssa.Value = ld.X
+						if fv, ok := cell.(*ssa.FreeVar); ok {
+							// the variable of the enclosing function bound to this free variable
+							fn := fv.Parent()
+							for i, f := range fn.FreeVars {
+								if f == fv && fn.Parent() != nil {
+									for _, pb := range fn.Parent().Blocks {
+										for _, pi := range pb.Instrs {
+											if mc, ok := pi.(*ssa.MakeClosure); ok && mc.Fn == fn {
+												cell = mc.Bindings[i]
+											}
+										}
+									}
+								}
+							}
+						}
+						if al, ok := cell.(*ssa.Alloc); ok {
+							sts := storesInto(al)
+							if len(sts) == 0 {
+								return false
+							}
+							for _, st := range sts {
+								if st.Addr != ssa.Value(al) || !isNewChild(st.Val, d+1) {
+									return false
+								}
+							}
+							return true
+						}
+					}
+					return false
 				}
+				isChild = isNewChild(ctx, 0)
 				c.Check(isChild, "probe", FuncName(af)+":call[setValue]", call.Pos(), "keyed by ctx.NewChild()",
 					"type probe stores its placeholder under a context that is not a fresh NewChild(): a concurrent or in-flight element value for the caller's context is overwritten")
 			}
 		}
 	}
-	c.Floor("probe sites", n, 2, "list/set and tuple arms of resultTy")
+	c.Floor("probe sites", n, 1, "the type probes of resultTy")
 }
 
 // R3: no shared write reachable from evaluation entry points.
